@@ -22,7 +22,9 @@ import (
 	"github.com/hashicorp/hcl-lang/schema"
 	"github.com/hashicorp/hcl/v2"
 	"github.com/hashicorp/hcl/v2/hclsyntax"
+	"github.com/hashicorp/hcl-lang/reference"
 	"github.com/zclconf/go-cty/cty"
+	"github.com/zclconf/go-cty/cty/convert"
 	"github.com/zclconf/go-cty/cty/function"
 )
 
@@ -316,6 +318,13 @@ func valueCandsScenario(run *Run, sc *Scenario, offsets []int, max uint, prefill
 	emptyExprRanges(body, &empties)
 	cparens := List{}
 	callParens(body, &cparens)
+	// the collected declarations of the path and go-cty's convertibility for (type of a declaration, type a
+	// value may be expected to have): the model enumerates the reference candidates from them
+	tgtS := S(targetsS(sc.Main.Ctx.ReferenceTargets))
+	convS := S(convTableFor(sc.Main.Ctx.ReferenceTargets, sc.Main.Schema, sc.Main.Ctx.Functions))
+	if len(allTargets(sc.Main.Ctx.ReferenceTargets)) > 400 {
+		tgtS, convS = Atom("noref"), Atom("noref")
+	}
 	var wfFails []string
 	malformedParserRanges = 0
 	run.Res.Hypotheses["value_completion_tree_nodes_checked"] += wfcCheck(body, &wfFails)
@@ -369,7 +378,7 @@ func valueCandsScenario(run *Run, sc *Scenario, offsets []int, max uint, prefill
 		if len(pairs) == 0 {
 			continue
 		}
-		run.Case("valuecands", []S{Bool(prefill), Int(int(max)), Str(string(sc.Src)), toks, dec, bodyS_, schS, exprs, opens, empties, vals, fsigsS(sc.Main.Ctx.Functions), parens, cparens, pairs}, T("allok"))
+		run.Case("valuecands", []S{Bool(prefill), Int(int(max)), Str(string(sc.Src)), toks, dec, bodyS_, schS, exprs, opens, empties, vals, fsigsS(sc.Main.Ctx.Functions), parens, cparens, convS, tgtS, pairs}, T("allok"))
 		run.Count("valuecands_files")
 		run.Res.Distribution["valuecands_positions"] += len(pairs)
 	}
@@ -453,4 +462,112 @@ func valueFocusFirstLine(every int) []*Scenario {
 		}
 	}
 	return out
+}
+
+// convTableFor: convert.Convert(cty.UnknownVal(a), b) for every type a of a collected declaration and every type b a
+// value may be expected to have: the types of the schema's constraints with their element / attribute types, the
+// parameter types of the functions, the operand types of the operators
+func convTableFor(ts reference.Targets, sch *schema.BodySchema, funcs map[string]schema.FunctionSignature) S {
+	from := map[string]cty.Type{}
+	for _, t := range allTargets(ts) {
+		if t.Type != cty.NilType {
+			from[t.Type.GoString()] = t.Type
+		}
+	}
+	to := map[string]cty.Type{}
+	var addType func(t cty.Type, d int)
+	addType = func(t cty.Type, d int) {
+		if t == cty.NilType || d > 6 {
+			return
+		}
+		to[t.GoString()] = t
+		switch {
+		case t.IsListType() || t.IsSetType() || t.IsMapType():
+			addType(t.ElementType(), d+1)
+		case t.IsTupleType():
+			for _, e := range t.TupleElementTypes() {
+				addType(e, d+1)
+			}
+		case t.IsObjectType():
+			for _, e := range t.AttributeTypes() {
+				addType(e, d+1)
+			}
+		}
+	}
+	for _, t := range []cty.Type{cty.Bool, cty.Number, cty.String, cty.DynamicPseudoType, cty.Map(cty.DynamicPseudoType), cty.List(cty.DynamicPseudoType), cty.Set(cty.String), cty.EmptyObject} {
+		addType(t, 0)
+	}
+	var addCons func(c schema.Constraint, d int)
+	addCons = func(c schema.Constraint, d int) {
+		if c == nil || d > 6 {
+			return
+		}
+		switch x := c.(type) {
+		case schema.AnyExpression:
+			addType(x.OfType, 0)
+		case schema.LiteralType:
+			addType(x.Type, 0)
+		case schema.Reference:
+			addType(x.OfType, 0)
+		case schema.List:
+			addCons(x.Elem, d+1)
+		case schema.Set:
+			addCons(x.Elem, d+1)
+		case schema.Map:
+			addCons(x.Elem, d+1)
+		case schema.Tuple:
+			for _, e := range x.Elems {
+				addCons(e, d+1)
+			}
+		case schema.Object:
+			for _, a := range x.Attributes {
+				addCons(a.Constraint, d+1)
+			}
+		case schema.OneOf:
+			for _, e := range x {
+				addCons(e, d+1)
+			}
+		}
+	}
+	var addBody func(b *schema.BodySchema, d int)
+	addBody = func(b *schema.BodySchema, d int) {
+		if b == nil || d > 5 {
+			return
+		}
+		for _, a := range b.Attributes {
+			addCons(a.Constraint, 0)
+		}
+		if b.AnyAttribute != nil {
+			addCons(b.AnyAttribute.Constraint, 0)
+		}
+		for _, k := range b.Blocks {
+			addBody(k.Body, d+1)
+			for _, dep := range k.DependentBody {
+				addBody(dep, d+1)
+			}
+		}
+	}
+	addBody(sch, 0)
+	for _, f := range funcs {
+		for _, p := range f.Params {
+			addType(p.Type, 0)
+		}
+		if f.VarParam != nil {
+			addType(f.VarParam.Type, 0)
+		}
+	}
+	l := List{}
+	for _, fk := range sortedKeys(from) {
+		for _, tk := range sortedKeys(to) {
+			a, b := from[fk], to[tk]
+			ok := false
+			func() {
+				defer func() { _ = recover() }()
+				_, err := convert.Convert(cty.UnknownVal(a), b)
+				ok = err == nil
+			}()
+			l = append(l, L(tyS(a), tyS(b), Bool(ok)))
+		}
+	}
+	return l
 }
